@@ -466,7 +466,7 @@ func (e *E) pathsOfHit(h Hit) ([]string, bool) {
 				match = false
 			}
 		case "Unpack":
-			match = fc.F.Kind.String() == h.ID || fc.F.Kind.String() == "[]"+h.ID
+			match = fc.F.Kind.String() == h.ID || fc.F.Kind.String() == "[]"+h.ID || fc.F.Kind.String() == "*"+h.ID || fc.F.Kind.String() == "map[string]"+h.ID
 		}
 		if !match {
 			return
@@ -481,7 +481,7 @@ func (e *E) pathsOfHit(h Hit) ([]string, bool) {
 			for i := 0; i < 6; i++ {
 				paths = append(paths, fc.Path+"."+itoa(i))
 			}
-		case KMInt, KMIface, KMVInt:
+		case KMInt, KMIface, KMVInt, KMUCfg:
 			paths = append(paths, fc.Path+".p", fc.Path+".q", fc.Path+".z")
 		case KSSVInt:
 			for i := 0; i < 3; i++ {
@@ -614,7 +614,7 @@ func (e *E) checkTraversal(result reflect.Value, log []Hit) {
 			}
 			// the tag validator of the field itself: kinds a built-in validator can reject
 			switch fc.F.Kind {
-			case KStruct, KPStruct, KInline, KInner, KPInner, KDInt, KUStr, KUInt, KUBool, KUFloat, KUAny, KUCfg, KCfg, KSStruct, KMStruct, KUUint, KAStruct:
+			case KStruct, KPStruct, KInline, KInner, KPInner, KDInt, KUStr, KUInt, KUBool, KUFloat, KUAny, KUCfg, KCfg, KSStruct, KMStruct, KUUint, KAStruct, KPUStr, KMUCfg, KURefl:
 				continue // struct-kind values: no built-in validator can reject them
 			}
 			want := canonHitValue(fieldValue(f))
